@@ -915,6 +915,12 @@ class Interp:
             return self.getitem_arr2(obj, idx, lineno)
         if isinstance(obj, SRec):
             return self.call_method(obj, "__getitem__", [idx], {}, lineno)
+        if isinstance(obj, SymList) and isinstance(idx, slice):
+            if idx.start is None and idx.step is None and idx.stop is not None and conc(idx.stop) is not None and not isinstance(conc(idx.stop), bool):
+                k = conc(idx.stop)
+                if isinstance(k, int) and k >= 0:
+                    return SymList(conc(Min(obj.count, k)), obj.at)
+            raise Unsupported("slice of a list of symbolic length")
         if isinstance(obj, SymList):
             k = idx
             self.ctx.check("%s:index.inbounds@L%s" % (self.ctx.fname, lineno), in_range(k, obj.count), "safety", lineno)
